@@ -447,6 +447,8 @@ where
             };
             let panic_at = fault.strip_prefix("poll:").and_then(|k| k.parse().ok());
             let src = Scripted { answers, k: 0, hint, panic_at, after_none: false, saw_none: false };
+            // C05: one collected element's destructor panics while the library tears its intermediates down
+            BAD_DROP.with(|b| *b.borrow_mut() = dtor_bad);
             match (boxed, try_) {
                 (false, true) => finish(catch_unwind(AssertUnwindSafe(|| GenericArray::<Tr, N>::try_from_iter(src))), |r| match r {
                     Ok(a) => arr_out(a),
